@@ -37,12 +37,11 @@ def unambiguous(vs, op, pos, arg):
     """the edit must not involve a voice whose state shape equals that of another voice of the program: identically shaped
     siblings may legitimately exchange their state (C08), which would make 'untouched' ambiguous"""
     sigs = [SIG[v[0]] for v in vs]
+    if len(set(sigs)) != len(sigs):
+        return False
     if op in ('insert', 'replace'):
-        others = [s_ for i, s_ in enumerate(sigs) if not (op == 'replace' and i == pos)]
-        return SIG[arg[0]] not in others and len(set(others)) == len(others)
-    if op == 'delete':
-        return len(set(sigs)) == len(sigs)
-    return len(set(sigs)) == len(sigs)
+        return SIG[arg[0]] not in sigs
+    return True
 
 
 def render(voices):
